@@ -73,4 +73,13 @@ theorem aget_append_not_mem (k : Int) (l : List (Int × ν)) (k2 : Int) (v : ν)
     obtain ⟨k', v'⟩ := p
     by_cases h1 : k = k' <;> simp [aget, h1, ih]
 
+theorem aget_mem {α : Type} (k : Int) (v : α) (l : List (Int × α)) (h : aget k l = some v) : (k, v) ∈ l := by
+  induction l with
+  | nil => simp [aget] at h
+  | cons q l ih =>
+    obtain ⟨k', v'⟩ := q
+    by_cases e : k = k'
+    · subst e; simp [aget] at h; subst h; exact List.mem_cons_self
+    · simp [aget, e] at h; exact List.mem_cons_of_mem _ (ih h)
+
 end MySensors
